@@ -225,9 +225,11 @@ theorem machine_terminates_partial (fx : Fix) (g : Graph) (ctx : Ctx) (n : Nat) 
 
 /-! ### witnesses: cyclic inputs terminate (concrete runs; replayed on the real code by corpus/C09) -/
 
-/-- `5 0 obj 5 0 R` checked against Integer: 3 iterations -/
+/-- `5 0 obj 5 0 R` checked against Integer: 3 iterations (null is not an integer) -/
 theorem selfref_terminates_witness :
     checkTypeFuel Fix.tree [((5, 0), .ref 5 0)] [] 10 (.ref 5 0) (.prim Attr.dflt .integer)
+      = (.reject .typeMismatch, 3) ∧
+    checkTypeFuel Fix.orig [((5, 0), .ref 5 0)] [] 10 (.ref 5 0) (.prim Attr.dflt .integer)
       = (.accept, 3) := by decide
 
 def nodeT : Chk := .dict Attr.dflt (.cons [0x4e] .optional (.named "node") .nil)
